@@ -88,6 +88,7 @@ def atomize(test, val):
 class SymExec:
     def __init__(self, ctx, func, depth=2, expand=True, bind_loops=False, no_expand=(), max_paths=MAX_PATHS,
                  objects=False, effects=False, volatile=(), props=False, private_only=False):
+        self.self_cls = None            # class of the object the method is walked for (virtual dispatch of self.m())
         self.props = props              # reads of simple properties of the own class are expanded like helper calls
         self.private_only = private_only  # only helpers whose name starts with '_' (and local defs) are looked through
         self.max_paths = max_paths
@@ -270,7 +271,13 @@ class SymExec:
         g = None
         if isinstance(fn, ast.Attribute) and isinstance(fn.value, ast.Name) and fn.value.id in ('self', 'cls') \
            and self.func.cls is not None:
-            g = m.resolve_method(self.func.cls.name, fn.attr)
+            g = m.resolve_method(self.self_cls or self.func.cls.name, fn.attr)
+        elif isinstance(fn, ast.Attribute) and isinstance(fn.value, ast.Name) and fn.value.id in m.classes and \
+                fn.value.id not in self.local_names:
+            # Cls.make(...): an alternative constructor / static helper of a class of the package
+            g = m.resolve_method(fn.value.id, fn.attr)
+            if g is not None and not ('classmethod' in g.decorators or g.is_static):
+                g = None
         elif isinstance(fn, ast.Name):
             g = m.funcs.get('%s.%s' % (self.func.module.name, fn.id))
             if g is None and fn.id not in ELEMENTWISE:
@@ -328,6 +335,7 @@ class SymExec:
         sub = SymExec(self.ctx, self.func, self.depth - 1, self.expand, self.bind_loops, self.no_expand,
                       self.max_paths, self.objects, self.effects, self.volatile, self.props, self.private_only)
         sub._ntok = self._ntok
+        sub.self_cls = self.self_cls if (sub.func.cls is not None and self.func.cls is not None) else None
         sub._nl = self._nl
         sub.raises = self.raises
         sub.local_defs = dict(self.local_defs)
@@ -371,12 +379,18 @@ class SymExec:
             bind.setdefault(p_.arg, d)
         if any(p_ not in bind for p_ in params):
             return None
+        if 'classmethod' in g.decorators and g.params:
+            # cls inside the alternative constructor: the class it was called on (self.make -> the class of self)
+            fn_ = call.func
+            if isinstance(fn_, ast.Attribute) and isinstance(fn_.value, ast.Name) and fn_.value.id in self.ctx.model.classes:
+                bind[g.params[0]] = ast.Name(id=fn_.value.id, ctx=ast.Load())
         for k_, v_ in env.items():
             if k_.startswith('_obj') and '.' in k_:
                 bind.setdefault(k_, v_)     # fields of the records made so far (a record may be an argument)
         sub = SymExec(self.ctx, g, self.depth - 1, self.expand, self.bind_loops, self.no_expand,
                       self.max_paths, self.objects, self.effects, self.volatile, self.props, self.private_only)
         sub._ntok = self._ntok
+        sub.self_cls = self.self_cls if (sub.func.cls is not None and self.func.cls is not None) else None
         sub._nl = self._nl
         sub.raises = self.raises
         paths = sub.run(env=dict(bind))
@@ -415,7 +429,7 @@ class SymExec:
 
     def _property_paths(self, attr):
         """[(value, conds)] of reading a property of the own class whose body is a pure computation"""
-        g = self.ctx.model.resolve_method(self.func.cls.name, attr.attr)
+        g = self.ctx.model.resolve_method(self.self_cls or self.func.cls.name, attr.attr)
         if g is None or g.kind not in ('property', 'cached_property') or g.qual == self.func.qual or \
            g.qual in self.no_expand:
             return None
@@ -428,6 +442,7 @@ class SymExec:
         sub = SymExec(self.ctx, g, self.depth - 1, self.expand, self.bind_loops, self.no_expand,
                       self.max_paths, self.objects, self.effects, self.volatile, self.props, self.private_only)
         sub._ntok = self._ntok
+        sub.self_cls = self.self_cls if (sub.func.cls is not None and self.func.cls is not None) else None
         sub._nl = self._nl
         sub.raises = self.raises
         res = []
@@ -441,6 +456,70 @@ class SymExec:
             return None
         cache[g.qual] = res
         return res
+
+    def _foreign_property(self, attr):
+        """[(value, conds)] of `<x>.name` where name is a plain (not cached) property of exactly one class of the
+        package, never stored as an attribute anywhere, and its body is one pure return expression: the expression
+        with self := <x>"""
+        m = self.ctx.model
+        tbl = m.__dict__.get('_unique_props')
+        if tbl is None:
+            owners = {}
+            for ci in m.classes.values():
+                for nm_, g_ in ci.methods.items():
+                    if g_.kind == 'property':
+                        owners.setdefault(nm_, []).append(g_)
+            stored = set()
+            plain = set()
+            for f_ in m.all_funcs():
+                for x_ in ast.walk(f_.node):
+                    if isinstance(x_, ast.Attribute) and isinstance(x_.ctx, (ast.Store, ast.Del)):
+                        stored.add(x_.attr)
+            for ci in m.classes.values():
+                plain |= set(ci.class_attrs)
+                plain |= {nm_ for nm_, g_ in ci.methods.items() if g_.kind != 'property'}
+            tbl = {}
+            for nm_, gs in owners.items():
+                if len(gs) != 1 or nm_ in stored or nm_ in plain or gs[0].cls.subclasses and any(
+                        nm_ in sc.methods for sc in gs[0].cls.subclasses):
+                    continue
+                if any(isinstance(y_, (ast.For, ast.While, ast.Yield, ast.YieldFrom, ast.Lambda, ast.Try, ast.With))
+                       for y_ in ast.walk(gs[0].node)):
+                    continue
+                tbl[nm_] = gs[0]
+            m.__dict__['_unique_props'] = tbl
+        g = tbl.get(attr.attr)
+        if g is None:
+            return None
+        cache = m.__dict__.setdefault('_unique_prop_paths', {})
+        if g.qual not in cache:
+            cache[g.qual] = None
+            sub = SymExec(self.ctx, g, 1, True, False, (), 16)
+            res = []
+            try:
+                for p in sub.run():
+                    if p.end == 'raise':
+                        continue
+                    if p.end != 'return' or p.ret is None or p.stores or p.calls:
+                        res = None
+                        break
+                    res.append((p.ret, p.conds))
+            except AnalysisError:
+                res = None
+            if res and len(res) <= 3 and not any(isinstance(y_, ast.Call) for v_, c_ in res for y_ in ast.walk(v_)):
+                cache[g.qual] = res
+        res = cache[g.qual]
+        if res is None:
+            return None
+        sn = g.params[0]
+        rtxt = norm(attr.value)
+        import re as _re
+        out = []
+        for v_, conds in res:
+            val = copy_replace(v_, lambda n_: attr.value if isinstance(n_, ast.Name) and n_.id == sn else None)
+            cs = tuple((_re.sub(r'\b%s\b' % sn, lambda mo: rtxt, t_) if isinstance(t_, str) else t_, b_) for t_, b_ in conds)
+            out.append((simplify(val), cs))
+        return out
 
     def eval_expr(self, e, path):
         """[(value AST, Path)]: e substituted in path.env; helper calls expanded (forking)"""
@@ -464,6 +543,11 @@ class SymExec:
             elif self.props and self.depth > 0 and isinstance(n, ast.Attribute) and isinstance(n.ctx, ast.Load) and \
                     isinstance(n.value, ast.Name) and n.value.id == 'self' and self.func.cls is not None:
                 hp = self._property_paths(n)
+                if hp is not None:
+                    calls.append((n, hp))
+            elif self.props and self.depth > 0 and isinstance(n, ast.Attribute) and isinstance(n.ctx, ast.Load) and \
+                    not (isinstance(n.value, ast.Name) and n.value.id == 'self'):
+                hp = self._foreign_property(n)
                 if hp is not None:
                     calls.append((n, hp))
         if not calls:
@@ -530,6 +614,11 @@ class SymExec:
             # attribute facts about the old binding are stale
             for k in [k for k in p.env if k.startswith(target.id + '.')]:
                 del p.env[k]
+        elif isinstance(target, ast.Attribute) and isinstance(target.value, ast.Name) and _is_bare(p.env.get(target.value.id)):
+            # an attribute of an object made with __new__ in this very function: part of the value of that name
+            cur = p.env[target.value.id]
+            kws = [k_ for k_ in cur.keywords if k_.arg != target.attr] + [ast.keyword(arg=target.attr, value=value)]
+            p.env[target.value.id] = ast.Call(func=cur.func, args=cur.args, keywords=kws)
         elif isinstance(target, ast.Attribute) and dotted(target) is not None:
             base = self.subst(target.value, p.env)
             d = dotted(base) or (norm(base) if isinstance(base, (ast.Subscript, ast.Name, ast.Attribute)) else None)
@@ -1761,6 +1850,13 @@ def simplify(e):
            -len(n.value.elts) <= n.slice.value < len(n.value.elts) and \
            not any(isinstance(x, ast.Starred) for x in n.value.elts):
             return simplify(n.value.elts[n.slice.value])
+        if isinstance(n, ast.Call) and isinstance(n.func, ast.Attribute) and n.func.attr == '__new__' and len(n.args) == 1 and \
+           not n.keywords and norm(n.func.value) in (norm(n.args[0]), 'object'):
+            return ast.Call(func=ast.Name(id='_bare', ctx=ast.Load()), args=[n.args[0]], keywords=[])
+        if isinstance(n, ast.Attribute) and _is_bare(n.value):
+            hit = [k_.value for k_ in n.value.keywords if k_.arg == n.attr]
+            if hit:
+                return simplify(hit[-1])
         if isinstance(n, ast.Call) and isinstance(n.func, ast.Name) and n.func.id == 'isinstance' and len(n.args) == 2 and \
            not n.keywords and isinstance(n.args[1], ast.Name) and n.args[1].id == 'str':
             # a helper that hands back either a value or the text of a message: which one is known per path
@@ -1782,6 +1878,10 @@ def simplify(e):
                    type(k_.value) is type(n.slice.value)]
             if len(hit) == 1:
                 return simplify(hit[0])     # an entry of a constant table
+        if isinstance(n, ast.Compare) and len(n.ops) == 1 and isinstance(n.ops[0], (ast.Is, ast.IsNot)) and \
+           isinstance(n.left, ast.Constant) and n.left.value is None and isinstance(n.comparators[0], ast.Name) and \
+           n.comparators[0].id == 'self':
+            return ast.Constant(value=isinstance(n.ops[0], ast.IsNot))      # None is self: never
         if isinstance(n, ast.Compare) and len(n.ops) == 1 and isinstance(n.ops[0], (ast.Is, ast.IsNot)) and \
            isinstance(n.comparators[0], ast.Constant) and n.comparators[0].value is None:
             l_ = n.left
@@ -2214,6 +2314,11 @@ def record_fields(cls, call):
             return {}
         out[k.arg] = k.value
     return out if set(out) == set(fields) else {}
+
+
+def _is_bare(v):
+    """_bare(Cls, attr=value, ...): an object made with Cls.__new__(Cls) and the attributes given to it since"""
+    return isinstance(v, ast.Call) and isinstance(v.func, ast.Name) and v.func.id == '_bare'
 
 
 def _walk_unflagged(root, flag):
